@@ -189,6 +189,7 @@ def _small_fmtstrs():
 
 
 shared_atts.enumerate_small = _small_fmtstrs
+shared_atts.result = AttsT()              # callee form: some attribute dict with the property stated by ensures
 shared_atts.fresh_result = True       # a dict handed to the caller: must not be retained by the value (obligation result_not_retained)
 
 
